@@ -68,10 +68,19 @@ def computed_graph(n, E, name=None):
     return ComputedGraph(n, E, name)
 
 
+def listed(xs, key, order="sorted"):
+    """The order in which a computed bipartite graph lists the neighbours xs of vertex `key`."""
+    xs = sorted(xs)
+    if order == "preference":
+        xs = sorted(xs, key=lambda x: ((x * 7 + key * 3) % 5, -x))
+    return xs
+
+
 def computed_bipartite(L, R, E, order="sorted", base="BipartiteGraph", name=None):
     """A bipartite graph in the style of the library's own CompleteBipartiteGraph: edges E = {(u, v)} answered by
     overridden public methods.  order='sorted' lists neighbours increasingly (what BipartiteGraph documents),
-    'preference' lists them in another fixed order (allowed for a direct subclass of BaseBipartiteGraph only)."""
+    'preference' lists the right neighbours of a left vertex in another fixed order (allowed for a direct subclass of
+    BaseBipartiteGraph only; the left neighbours of a right vertex stay increasing)."""
     import cnfgen.graphs as g
     parent = g.BipartiteGraph if base == "BipartiteGraph" else g.BaseBipartiteGraph
 
@@ -93,10 +102,7 @@ def computed_bipartite(L, R, E, order="sorted", base="BipartiteGraph", name=None
             return len(self._own)
 
         def _listed(self, xs, key):
-            xs = sorted(xs)
-            if order == "preference":
-                xs = sorted(xs, key=lambda x: ((x * 7 + key * 3) % 5, -x))
-            return xs
+            return listed(xs, key, order)
 
         def right_neighbors(self, u):
             if not (1 <= u <= self.lorder):
@@ -106,7 +112,7 @@ def computed_bipartite(L, R, E, order="sorted", base="BipartiteGraph", name=None
         def left_neighbors(self, v):
             if not (1 <= v <= self.rorder):
                 raise ValueError("Invalid choice of vertex")
-            return self._listed([u for u in range(1, self.lorder + 1) if (u, v) in self._own], v)
+            return sorted(u for u in range(1, self.lorder + 1) if (u, v) in self._own)
 
     return ComputedBipartite(L, R, E, name)
 
@@ -225,3 +231,36 @@ def reserving_class(base, reserve, with_clause=True):
 
     Reserving.__name__ = "Reserving" + base.__name__
     return Reserving
+
+
+def view_opb(n, shown, stored=None):
+    """An OPB formula that presents the constraints `shown` ([(coefficient, literal), ..., op, degree] with op '>=' or
+    '==') through the sequence protocol while its inherited table holds `stored`."""
+    from cnfgen.formula.opb import OPB
+
+    class ViewOPB(OPB):
+        def __init__(self, n, shown, stored):
+            OPB.__init__(self)
+            self.update_variable_number(n)
+            for c in stored:
+                OPB.add_constraint(self, list(c))
+            self._shown = [list(c) for c in shown]
+
+        def __len__(self):
+            return len(self._shown)
+
+        def __iter__(self):
+            return iter([list(c) for c in self._shown])
+
+        def __getitem__(self, idx):
+            return list(self._shown[idx])
+
+        def number_of_constraints(self):
+            return len(self._shown)
+
+        def constraints(self):
+            return iter([list(c) for c in self._shown])
+
+    if stored is None:
+        stored = list(shown) + list(shown[:1])
+    return ViewOPB(n, shown, stored)
